@@ -20,11 +20,11 @@ import (
 
 // Tier parameters (easy to change when calibrating run times).
 var (
-	c07PhaseLength  int64 = 5 // with a two-block lag a message lands 3+delay blocks into its phase: delays 0..1 are in phase
-	c07QuickBound         = 2 // adversary deviations from honest behaviour, quick
-	c07ThoroughSchedBound = 2 // adversary deviations combined with one schedule deviation, thorough
-	c07N4Bound            = 2
-	c07SelfCheckEvery     = 61 // every k-th execution is executed twice and the observations compared
+	c07PhaseLength        int64 = 5 // with a two-block lag a message lands 3+delay blocks into its phase: delays 0..1 are in phase
+	c07QuickBound               = 2 // adversary deviations from honest behaviour, quick
+	c07ThoroughSchedBound       = 2 // adversary deviations combined with one schedule deviation, thorough
+	c07N4Bound                  = 2
+	c07SelfCheckEvery           = 61 // every k-th execution is executed twice and the observations compared
 )
 
 type c07Unit struct {
@@ -401,4 +401,3 @@ func c07() *report.Check {
 		Trivial: func(class string) bool { return false },
 	}
 }
-
